@@ -1,0 +1,3 @@
+//! Facade for the area ReconfUnits (what the running bgp-tcp-in, file-out,
+//! mrt-file-in, filter and null-out components do with a `Reconfigure`).
+pub use crate::comms::verif_hooks_reconfunits::*;
